@@ -162,20 +162,27 @@ func C11() {
 }
 
 // comments returns the trimmed non-empty comment texts of a tree in source order
-// (docstrings count at the position of their task) and the trimmed docstring of every task.
-func comments(t ast.Tree) (all []string, docs []string) {
+// (docstrings count at the position of their task), the trimmed docstring of every task, and the
+// skeleton of the tree: one letter per item in order - 'c' a comment, 'd' a non-empty docstring,
+// 'a' an assignment, 't' a task - so that a comment moving past a statement changes it.
+func comments(t ast.Tree) (all []string, docs []string, skeleton string) {
 	for _, n := range t.Nodes {
 		switch v := n.(type) {
 		case ast.Comment:
 			if s := strings.TrimSpace(v.Text); s != "" {
 				all = append(all, s)
+				skeleton += "c"
 			}
+		case ast.Assign:
+			skeleton += "a"
 		case ast.Task:
 			d := strings.TrimSpace(v.Docstring.Text)
 			if d != "" {
 				all = append(all, d)
+				skeleton += "d"
 			}
 			docs = append(docs, d)
+			skeleton += "t"
 		}
 	}
 	return
@@ -211,12 +218,13 @@ func C15() {
 		return
 	}
 	sym.Reach("C15/reparsed")
-	all1, docs1 := comments(t1)
-	all2, docs2 := comments(t2)
+	all1, docs1, sk1 := comments(t1)
+	all2, docs2, sk2 := comments(t2)
 	if len(docs1) == len(docs2) {
 		for i := range docs1 {
 			if len(docs1[i]) != len(docs2[i]) {
 				sym.Violation("C15/docstring-changed/"+docstringCause(src), "")
+				return // one report per path: the role change below is the same event
 			} else {
 				sym.Assert(docs1[i] == docs2[i], "C15/docstring-changed/same-length-different-text")
 			}
@@ -224,6 +232,13 @@ func C15() {
 	}
 	if len(all1) != len(all2) {
 		sym.Violation("C15/comment-lost-or-duplicated", "")
+		return
+	}
+	// same texts in the same order is not enough: a comment must not move past a statement, nor
+	// turn from a standalone comment into a docstring or back
+	if sk1 != sk2 {
+		sym.Observe("skeleton", sk1+" -> "+sk2)
+		sym.Violation("C15/comment-moved-past-a-statement-or-changed-role", "")
 		return
 	}
 	for i := range all1 {
